@@ -19,7 +19,7 @@ LEVEL_TEXT = ('Lean 4 theorems, for all shapes/targets/parities: pad (2-D and cu
               'distance k, pairwise distinct; a k-ring aperture has 1+3k(k+1) distinct cells minus the dropped numbers in range; for seg_gap > 0 '
               'two segments at distinct cells share no pixel (separating-axis argument over any ordered field, both orientations, with the '
               'exact sin/cos tables of the edge normals proved over R) and, for pad >= 2, every segment pixel has row/column index in '
-              '[1, size-2] (clear of the border). PARTIAL: equal area up to edge sampling is checked on the real code only (no theorem); '
+              '[1, size-2] (clear of the border) — both also restated over the regenerated size / pitch / hex_to_rc expressions the driver runs; drawing and padding commute, cropping is sub-array extraction. PARTIAL: equal area up to edge sampling is checked on the real code only (no theorem); '
               'float rounding of the edge test and of the ceil in the array size is not modelled.')
 LEVEL_NOTE = ('Trusted: Lean kernel, py2lean subset semantics, NumPy slicing/reshape/any/where semantics as modelled in '
               'Model/Geometry.lean, float sqrt/sin/cos (model run at Float, tolerance 1e-9; binary masks compared except where the '
@@ -31,7 +31,9 @@ OPS = ['C20']
 RULE = ('cases: pad of 2-D arrays (all source/target sizes 1..9, every grow/shrink/parity mix) and cubes (depth 1..3, non-square), '
         'subarray incl. windows outside the array, boundary/boundary_slice/slice_offset on sparse integer arrays with thresholds and '
         'pads, rebin (2-D, cubes, non-divisible factors), centroid, hex_ring 0..6, hex_segments (rings 1..3, gaps >= 0, drop lists '
-        'with duplicates and out-of-range numbers, both orientations), util.window (shape / slice / both / neither / one element / cube), '
+        'with duplicates and out-of-range numbers, both orientations; also the library defaults antialias=True/pad=2/drop=(0,) compared as a flattened aperture), '
+        'cross-helper cases (pad of a drawn shape = the shape drawn larger, crop = sub-array, centroid and bounding box of an integer-shifted shape), float and '
+        'negative-weight centroids, rebin refusals (factor 0, complex), util.window (shape / slice / both / neither / one element / cube), '
         'circle/rectangle/hexagon/spider with dyadic parameters, shifts and rotations, antialiased and binary, incl. shapes much larger '
         'than the array or centred far outside it; boundary data at physical scales 1e-18..1e12; half-turn-symmetric arrays for the '
         'centroid; deeper tiers add arrays up to 3001x3 / 3x4097, int8/int16/uint8/int32/float32 data, a 61-segment aperture; distinct = canonical (kind, shapes, parameters) signature; non-trivial = not the '
@@ -135,6 +137,17 @@ def generate(rng, tier):
                 if e.sum() == 0: e[c0, c1] = 1
                 c['data'] = [int(x) for x in e.ravel()]; c['sym_centre'] = [c0, c1]
             out.append(c)
+        elif t == 8 and k % 42 == 8:
+            out.append({'kind': 'segments_aa', 'rings': int(rng.integers(1, 3)), 'radius': _dy(rng, 3, 5), 'gap': [1.0, 1.5, 2.0][int(rng.integers(0, 3))]})
+        elif t == 8 and k % 42 == 22:
+            shp = [int(rng.integers(9, 15)), int(rng.integers(9, 15))]; big = [shp[0] + int(rng.integers(0, 6)), shp[1] + int(rng.integers(0, 6))]
+            sub = [int(rng.integers(3, shp[0] + 1)), int(rng.integers(3, shp[1] + 1))]
+            out.append({'kind': 'cross', 'shape': shp, 'big': big, 'sub': sub, 'radius': _dy(rng, 1, 3), 'shift': [int(rng.integers(-1, 2)), int(rng.integers(-1, 2))],
+                        'which': ['circle', 'hexagon', 'rectangle'][int(rng.integers(0, 3))], 'data': _ints(rng, shp[0] * shp[1], 1, 9)})
+        elif t == 8 and k % 42 == 36:
+            m = (int(rng.integers(2, 8)), int(rng.integers(2, 8)))
+            out.append({'kind': 'centroid_float', 'shape': list(m), 'data': [int(x) / 8 for x in rng.integers(-8, 25, m[0] * m[1])]})
+            out.append({'kind': 'rebin_refusal', 'what': ['f0', 'complex'][int(rng.integers(0, 2))]})
         elif t == 8:
             if rng.integers(0, 2):
                 out.append({'kind': 'hex_ring', 'k': int(rng.integers(0, 7))})
@@ -188,7 +201,8 @@ def signature(c):
     k = c['kind']
     keys = {'pad2': ('shape', 'to'), 'pad3': ('shape', 'to'), 'subarray': ('shape', 'sub', 'shift'), 'boundary': ('shape', 'data', 'thr', 'pad'),
             'rebin': ('shape', 'f'), 'centroid': ('shape', 'data'), 'hex_ring': ('k',), 'mesh': ('shape', 'shift'),
-            'segments': ('rings', 'radius', 'gap', 'rotate', 'drop', 'pad'), 'circle': ('shape', 'radius', 'shift', 'aa'),
+            'segments': ('rings', 'radius', 'gap', 'rotate', 'drop', 'pad'), 'segments_aa': ('rings', 'radius', 'gap'),
+            'cross': ('shape', 'big', 'sub', 'radius', 'shift', 'which'), 'centroid_float': ('shape', 'data'), 'rebin_refusal': ('what',), 'circle': ('shape', 'radius', 'shift', 'aa'),
             'rectangle': ('shape', 'width', 'height', 'shift', 'angle', 'aa'), 'spider': ('shape', 'width', 'shift', 'angle', 'aa'),
             'window': ('shape', 'mode', 'to', 'slice'), 'hexagon': ('shape', 'radius', 'shift', 'rotate', 'aa')}[k]
     return k + ' ' + ' '.join(str(c[x]) for x in keys)
@@ -242,6 +256,32 @@ def impl(c):
             r = lentil.pad(a, tuple(c['to']))
             back = lentil.pad(r, tuple(c['shape'][-2:]))
             return {'shape': list(r.shape), 'data': _il(r), 'back_shape': list(back.shape), 'back': _il(back), 'dtype_kept': r.dtype == a.dtype}
+        if k == 'segments_aa':
+            m = np.asarray(lentil.hex_segments(c['rings'], c['radius'], c['gap']))            # library defaults: antialias=True, pad=2, drop=(0,)
+            flat = lentil.hex_segments(c['rings'], c['radius'], c['gap'], flatten=True)
+            return {'shape': list(m.shape), 'min': float(m.min()), 'max': float(m.max()), 'flat': [float(x) for x in np.ravel(flat)],
+                    'flat_is_sum': bool(np.allclose(flat, m.sum(0), atol=1e-12)),
+                    'border': float(max(flat[0, :].max(), flat[-1, :].max(), flat[:, 0].max(), flat[:, -1].max()))}
+        if k == 'cross':
+            shp, big, sub, sh = tuple(c['shape']), tuple(c['big']), tuple(c['sub']), tuple(c['shift'])
+            draw = {'circle': lambda s_: lentil.circle(s_, c['radius'], shift=sh, antialias=False),
+                    'hexagon': lambda s_: lentil.hexagon(s_, c['radius'] + 1, shift=sh, antialias=False),
+                    'rectangle': lambda s_: lentil.rectangle(s_, 2 * c['radius'] + 1, 3.0, shift=sh, antialias=False)}[c['which']]
+            small, large = draw(shp), draw(big)
+            a = _arr(c)
+            cen = lentil.centroid(small)
+            b = lentil.boundary(small)
+            return {'pad_of_shape': _il(lentil.pad(small, big)), 'shape_on_big': _il(large), 'crop_of_big': _il(lentil.pad(large, shp)), 'shape_on_small': _il(small),
+                    'subarray': _il(lentil.util.subarray(a, sub)), 'crop': _il(lentil.pad(a, sub)), 'centroid': [float(cen[0]), float(cen[1])], 'bbox': [int(x) for x in b]}
+        if k == 'centroid_float':
+            r = lentil.centroid(_arr(c))
+            return {'rc': [float(r[0]), float(r[1])]}
+        if k == 'rebin_refusal':
+            try:
+                lentil.rebin(np.ones((4, 4)), 0) if c['what'] == 'f0' else lentil.rebin(np.ones((4, 4), dtype=complex), 2)
+                return {'raised': None}
+            except Exception as e:
+                return {'raised': type(e).__name__}
         if k == 'window':
             a = _arr(c); md = c['mode']
             if md == 'one-element': a = a.ravel()[:1].reshape(1, 1)
@@ -328,6 +368,10 @@ def requests(c, io):
         return reqs
     if k == 'circle':
         return [{'op': 'circle', 'shape': c['shape'], 'radius': vlib.fbits(c['radius']), 'shift': vlib.fl(c['shift']), 'aa': c['aa']}]
+    if k in ('cross', 'centroid_float', 'rebin_refusal'): return []
+    if k == 'segments_aa':
+        return [{'op': 'hex_segments', 'rings': c['rings'], 'radius': vlib.fbits(c['radius']), 'gap': vlib.fbits(c['gap']), 'rotate': False,
+                 'pad': 2, 'drop': [0], 'theta': vlib.fl(_hex_thetas(False)), 'aa': True}]
     if k == 'window':
         md = c['mode']
         if md == 'shape': return [{'op': 'pad2', 'shape': c['shape'], 'data': c['data'], 'to': c['to']}]
@@ -387,6 +431,14 @@ def _cmp_mask(c, got, want, q, what):
 def compare(c, io, mo):
     k = c['kind']; m = mo[0] if mo else None
     if k == 'window' and not mo: return None
+    if k in ('cross', 'centroid_float', 'rebin_refusal'): return None
+    if k == 'segments_aa':
+        if 'exc' in io: return f"hex_segments (defaults) raised {io['exc']}: {io.get('msg')}"
+        if not m.get('ok'): return f"model refused: {m.get('err')}"
+        if io['shape'][1:] != [m['size'], m['size']] or io['shape'][0] != m['count']: return f"hex_segments defaults: shape {io['shape']} vs model count {m['count']}, size {m['size']}"
+        want = np.array(vlib.unfl(m['flat'])); got = np.array(io['flat'])
+        if np.abs(got - want).max() > 1e-9: return f'hex_segments (antialiased, flattened) differs from the model by {np.abs(got - want).max():.3e}'
+        return None
     if 'exc' in io:
         if m.get('ok'): return f"implementation raised {io['exc']} ({io.get('msg')}), model answered"
         return None if m.get('err') == io['exc'] else f"implementation raised {io['exc']}, model {m.get('err')}"
@@ -475,6 +527,44 @@ def oracle(c, io):
             if io['back_shape'] != list(a.shape) or io['back'] != _il(a): return 'pad then crop back is not the identity'
         if not io['dtype_kept']: return 'pad changed the dtype'
         return None
+    if k == 'segments_aa':
+        if 'exc' in io: return f"hex_segments (defaults) raised {io['exc']}: {io.get('msg')}"
+        N = 1 + 3 * c['rings'] * (c['rings'] + 1)
+        if io['shape'][0] != N - 1: return f"hex_segments with the default drop=(0,) drew {io['shape'][0]} segments, expected {N - 1}"
+        if io['min'] < 0 or io['max'] > 1: return 'antialiased segment values outside [0, 1]'
+        if not io['flat_is_sum']: return 'flatten=True is not the sum of the segment masks'
+        if max(io['flat']) > 1 + 1e-12: return f"flattened antialiased aperture exceeds 1 ({max(io['flat'])}) although seg_gap >= 1"
+        if io['border'] > 0: return 'an antialiased segment touches the array border'
+        return None
+    if k == 'cross':
+        if 'exc' in io: return f"cross-helper case raised {io['exc']}: {io.get('msg')}"
+        shp, big = c['shape'], c['big']
+        small = np.array(io['shape_on_small']).reshape(shp); large = np.array(io['shape_on_big']).reshape(big)
+        # pad(shape drawn on n) == shape drawn on N, wherever pad copies (the shape fits inside both)
+        P = np.array(io['pad_of_shape']).reshape(big)
+        for i in range(big[0]):
+            for j in range(big[1]):
+                r, q = i - big[0] // 2 + shp[0] // 2, j - big[1] // 2 + shp[1] // 2
+                if 0 <= r < shp[0] and 0 <= q < shp[1] and P[i, j] != large[i, j]: return f"pad({c['which']} on {shp}) differs from {c['which']} drawn on {big} at [{i},{j}]"
+        if io['crop_of_big'] != io['shape_on_small']: return f"cropping {c['which']} drawn on {big} does not give {c['which']} drawn on {shp}"
+        if io['subarray'] != io['crop']: return 'subarray(a, s) differs from pad(a, s) for a crop'
+        if small.sum() > 0 and small[0, :].sum() + small[-1, :].sum() + small[:, 0].sum() + small[:, -1].sum() == 0:
+            want = [shp[0] // 2 + c['shift'][0], shp[1] // 2 + c['shift'][1]]
+            if max(abs(io['centroid'][0] - want[0]), abs(io['centroid'][1] - want[1])) > 1e-9:
+                return f"centroid of a {c['which']} shifted by the integer vector {c['shift']} is {io['centroid']}, expected floor(n/2) + shift = {want}"
+            bb = io['bbox']
+            if bb[0] + bb[1] != 2 * want[0] or bb[2] + bb[3] != 2 * want[1]: return f"bounding box {bb} of a {c['which']} is not symmetric about floor(n/2) + shift = {want}"
+        return None
+    if k == 'centroid_float':
+        if 'exc' in io: return f"centroid raised {io['exc']}"
+        a = _arr(c); tot = a.sum()
+        if abs(tot) < 1e-9: return None
+        want = [float((np.arange(a.shape[0])[:, None] * a).sum() / tot), float((np.arange(a.shape[1])[None, :] * a).sum() / tot)]
+        if max(abs(want[0] - io['rc'][0]), abs(want[1] - io['rc'][1])) > 1e-9 * (1 + max(a.shape)) * max(1.0, np.abs(a).sum() / abs(tot)): return f"centroid {io['rc']} != {want}"
+        return None
+    if k == 'rebin_refusal':
+        want = 'ZeroDivisionError' if c['what'] == 'f0' else 'ValueError'
+        return None if io.get('raised') == want else f"rebin({c['what']}): expected {want}, got {io.get('raised')}"
     if k == 'window':
         if 'exc' in io: return f"window raised {io['exc']}: {io.get('msg')}"
         a = _arr(c); md = c['mode']
